@@ -1,0 +1,42 @@
+//go:build verif
+
+// Licensed to LinDB under one or more contributor
+// license agreements. See the NOTICE file distributed with
+// this work for additional information regarding copyright
+// ownership. LinDB licenses this file to you under
+// the Apache License, Version 2.0 (the "License"); you may
+// not use this file except in compliance with the License.
+// You may obtain a copy of the License at
+//
+//     http://www.apache.org/licenses/LICENSE-2.0
+//
+// Unless required by applicable law or agreed to in writing,
+// software distributed under the License is distributed on an
+// "AS IS" BASIS, WITHOUT WARRANTIES OR CONDITIONS OF ANY
+// KIND, either express or implied.  See the License for the
+// specific language governing permissions and limitations
+// under the License.
+
+package index
+
+import (
+	"github.com/lindb/roaring"
+)
+
+// This file only exists with the "verif" build tag. It exposes the package's
+// test seam for decoding a posting list read from a kv table to the external
+// verification harness (C10); it changes no behaviour.
+
+// VerifGetBitmapUnmarshal returns the current bitmap decoder of the inverted indexes.
+func VerifGetBitmapUnmarshal() func(bitmap *roaring.Bitmap, data []byte) (int64, error) {
+	return bitmapUnmarshal
+}
+
+// VerifSetBitmapUnmarshal installs the bitmap decoder of the inverted indexes
+// (called for every posting list a lookup loads from a table file, i.e. after the lookup
+// took its kv snapshot and before it reads the memory stores).
+func VerifSetBitmapUnmarshal(fn func(bitmap *roaring.Bitmap, data []byte) (int64, error)) {
+	if fn != nil {
+		bitmapUnmarshal = fn
+	}
+}
